@@ -197,3 +197,49 @@ Definition text_only (b : bop) : bool :=
 (** The declarative layout of a text as a whole (independent of how it is cut into fragments): every
     non-empty line is its white-space-trimmed content behind two spaces per nesting level. *)
 Definition layout (t : text) : option (text * nat) := render false (ends_with_lf t) 0 (rust_lines t).
+
+(** ** classification used by the check's search leg (why a sequence is outside [run_safe]):
+    0 safe, 1 '\r', 2 (A) trimmed continuation, 3 (B) popped spaces, 4 both *)
+Definition frag_reason (interp : bool) (st : source) (f : text) : nat :=
+  if has_cr f then 1 else
+  match rust_lines f with
+  | [] => 0
+  | l :: rest =>
+      if bol_after true (as_str st) then 0 else
+      let a := negb (is_nil rest || no_lead_ws l) in
+      let b := interp && negb (in_comment st) && starts_with_c RBRACE (trim l) && ends2sp (rbuf st) in
+      if a then (if b then 4 else 2) else if b then 3 else 0
+  end.
+Fixpoint parts_reason (st : source) (ps : list text) : nat :=
+  match ps with
+  | [] => 0
+  | p :: r => match frag_reason true st p with 0 => parts_reason (push_str st p) r | n => n end
+  end.
+Definition bop_reason (st : source) (b : bop) : nat :=
+  match b with
+  | Push f => frag_reason true st f
+  | Lit f => frag_reason false st f
+  | Write ps => parts_reason st ps
+  | _ => 0
+  end.
+Fixpoint run_reason (st : source) (ops : list bop) : nat :=
+  match ops with
+  | [] => 0
+  | b :: r => match bop_reason st b with
+              | 0 => match step_b st b with Some (st', _) => run_reason st' r | None => 0 end
+              | n => n
+              end
+  end.
+
+Definition start_state_b (st : source) : bool := negb (continuing st) && negb (in_comment st).
+
+(** (run_reason, all fragments whole lines, declarative layout if defined) *)
+Definition classify (ops : list bop) : nat * bool * option (text * nat) :=
+  (run_reason source_default ops, forallb bop_aligned ops, spec_run 0 ops).
+
+(** for "pre-ops ; push_str(block)": (line start outside comment after pre?, line balance, char balance) *)
+Definition classify_block (pre : list bop) (block : text) : option (bool * bool * bool) :=
+  match run_b source_default pre with
+  | None => None
+  | Some (st, _) => Some (start_state_b st, balanced_lines (rust_lines block), char_balanced block)
+  end.
